@@ -27,7 +27,7 @@ def run_native(mods, flt, repo="/repo", timeout=3600, extra_args=None):
             name = "vx_native_" + re.sub(r"\W+", "_", os.path.basename(os.path.dirname(testfile)) + "_" + os.path.splitext(os.path.basename(testfile))[0]).lower()
             with open(os.path.join(dst, modfile), "a") as f:
                 f.write('\n#[cfg(test)]\n#[path = "%s"]\nmod %s;\n' % (testfile, name))
-        env = dict(os.environ, CARGO_NET_OFFLINE="true", CARGO_TARGET_DIR=TARGET)
+        env = dict(os.environ, CARGO_NET_OFFLINE="true", CARGO_TARGET_DIR=TARGET, RUST_BACKTRACE="0")
         cmd = ["cargo", "test", "--lib", "--offline", "-p", "rnacos", flt, "--", "--nocapture", "--test-threads", "1"] + (extra_args or [])
         p = subprocess.run(cmd, cwd=dst, env=env, capture_output=True, text=True, timeout=timeout)
         return p.returncode, p.stdout[-6000:] + "\n" + p.stderr[-6000:]
